@@ -24,6 +24,10 @@ type C13Case struct {
 	// ViaRunner: the client is configured with a RunnerFunc (no Cmd) and this SecureConfig. There is no
 	// file go-plugin could hash: nothing may be launched (the RunnerFunc must not even be invoked)
 	ViaRunner bool `json:"viaRunner,omitempty"`
+	// Concurrent: two clients share one SecureConfig (with a hash object that is safe to share: Reset takes a
+	// lock that Sum releases) and are started a few ms apart; Concurrent[i] is the content at client i's path
+	// ("good" | "tampered")
+	Concurrent []string `json:"concurrent,omitempty"`
 }
 
 type C13StepObs struct {
